@@ -31,7 +31,13 @@ Dialect-specific function forms are mapped onto sql3vl nodes: ``concat(a,b,..)``
 ``mod(a,b)``, ``DECODE(a,b,0,1)`` (0 when a,b are not distinct), ``EXISTS (SELECT a INTERSECT SELECT b)``,
 ``CAST(x AS type)``, ``(SELECT x AS name)`` (correlated scalar subquery without FROM), ``x::type`` (ignored).
 ``/`` is SQL division ("sqldiv": integer when both operands are integers); ``+`` on mssql is "plus"
-(addition or concatenation by operand type).
+(addition or concatenation by operand type).  A not yet expanded "expanding" bind (``__[POSTCOMPILE_name]`` inside IN)
+stands for the list ``params[name]``.  MySQL string literals use backslash escapes (``'\\\\'`` is one backslash).
+
+Non-associativity ("non"): ``a = b = c`` / ``a < b = c`` / ``a LIKE b LIKE c`` / ``a IS DISTINCT FROM b IS NULL`` are
+parse errors on such a level (yacc %nonassoc); a completed postfix form (``a IS NULL IS NULL``, ``a IN (..) IN (..)``) is not.
+The tables deliberately accept a little less than the real grammars where typed expression trees cannot reach
+(e.g. a comparison as BETWEEN's lower bound on PostgreSQL needs parentheses here).
 """
 from __future__ import annotations
 
@@ -61,7 +67,8 @@ KEYWORDS = {
 }  # fmt: skip
 
 
-def tokenize(sql):
+def tokenize(sql, backslash_escapes=False):
+    """backslash_escapes: MySQL string literals ('\\\\' is one backslash)"""
     out = []
     pos = 0
     n = len(sql)
@@ -78,6 +85,8 @@ def tokenize(sql):
             out.append(("kw", text.upper()))
         elif kind == "qident":
             out.append(("ident", text[1:-1]))
+        elif kind == "str" and backslash_escapes:
+            out.append((kind, text.replace("\\\\", "\\")))
         else:
             out.append((kind, text))
     out.append(("eof", ""))
@@ -569,7 +578,7 @@ class _Parser:
 
 def parse(sql, dialect, params=None):
     g = GRAMMARS[dialect]
-    p = _Parser(tokenize(sql), g, params)
+    p = _Parser(tokenize(sql, backslash_escapes=(dialect == "mysql")), g, params)
     node = p.expr(1)
     if p.peek()[0] != "eof":
         raise ParseError("trailing input at %r" % (p.peek(),))
